@@ -22,7 +22,7 @@ from . import c08 as ADF  # noqa: E402  (independent ADF writers + install helpe
 
 ID = "C06"
 RULE = ("Hypothesis RuleBasedStateMachine over a fresh temporary repository: rules are every add_*/update_* function of "
-        "the 14 rate families (update_* batched over several keys), the six install_adf11* front-ends fed by independent ADF11 writers, rejected updates (bad shape / charge > Z / non-Element "
+        "the 14 rate families (update_* batched over several keys), the six install_adf11* front-ends and install_adf15 fed by independent ADF writers, rejected updates (bad shape / charge > Z / non-Element "
         "species) and reads; a dict keyed by (family, symbol.lower(), charge, ..., lower-cased transition) is the reference "
         "model. After every step the touched keys and one sibling are read back, at the end every model key is read back "
         "bit for bit, never-written keys must raise RuntimeError, the file set must equal the one implied by the model, and "
@@ -31,7 +31,7 @@ RULE = ("Hypothesis RuleBasedStateMachine over a fresh temporary repository: rul
 ASSUMPTIONS = ["ADF11-style families take the table under the key 'rates' (what install.py passes), all others 'rate'",
                "finite float64 values only (no NaN/inf): JSON round trip of NaN is outside the stated property",
                "HOME redirection before import captures every write that ignores repository_path"]
-REQUIRED_LABELS = ["machine:overwrite", "machine:same-file-siblings", "machine:rejected", "machine:w:install11:scd", "machine:w:install11:ccd"]
+REQUIRED_LABELS = ["machine:overwrite", "machine:same-file-siblings", "machine:rejected", "machine:w:install11:scd", "machine:w:install11:ccd", "machine:install15"]
 
 SPECIES = ["hydrogen", "deuterium", "tritium", "helium", "helium3", "carbon", "neon", "argon"]
 SP = {n: getattr(E, n) for n in SPECIES}
@@ -493,6 +493,51 @@ class Repo:
         self.ctx.label("w:install11:" + cls)
 
     OPS["install11"] = lambda: ADF.adf11_cases().filter(lambda c: c["nd"] * c["nt"] * c["nblk"] <= 400)
+
+    # ---- ADF15 install front-end: excitation / recombination / thermal-CX PECs and wavelengths from one file
+    def do_install15(self, case):
+        el, q = ADF.EL[case["el"]], case["charge"]
+        d, text, expected = ADF.build_adf15(case)
+        rel = ADF._rel_adf15(case)
+        adas = tempfile.mkdtemp(prefix="vf_c06_adas_")
+        try:
+            path = os.path.join(adas, rel)
+            os.makedirs(os.path.dirname(path))
+            with open(path, "w") as f:
+                f.write(text)
+            with self.ctx.cut("install_adf15"):
+                ADF._quiet(ADF.I.install_adf15, el, q, rel, download=False, repository_path=self.path, adas_path=adas,
+                           header_format=ADF._hf(case))
+        finally:
+            shutil.rmtree(adas, ignore_errors=True)
+        sym = el.symbol.lower()
+        for c, t, b in expected:
+            low = (str(t[0]).lower(), str(t[1]).lower())
+            ne, te, tab = ADF._vals(b["dens"]) * 1e6, ADF._vals(b["temp"]), ADF._vals(b["table"]) * 1e-6
+            if c == "thermalcx":
+                key, relf = ("pec_thermal_cx", "h", 0, sym, q + 1, low), "pec/thermal_cx/h/0/%s/%d.json" % (sym, q + 1)
+            else:
+                key, relf = ("pec_" + c, sym, q, low), "pec/%s/%s/%d.json" % (c, sym, q)
+            with self.ctx.cut("read-after-install"):
+                got = self._read(key)
+            self.ctx.close(got["ne"], ne, "install:adf15:ne", rtol=1e-12, info="(key %r)" % (key,))
+            self.ctx.close(got["te"], te, "install:adf15:te", rtol=1e-12, info="(key %r)" % (key,))
+            g = np.asarray(got["rate"], dtype=np.float64)
+            if c == "thermalcx":
+                self.ctx.check(g.ndim == 3 and g.shape[:2] == tab.shape, "install:adf15:rate", lambda: "thermal CX PEC shape %r for table %r" % (g.shape, tab.shape))
+                for k in range(g.shape[2]):
+                    self.ctx.close(g[:, :, k], tab, "install:adf15:rate", rtol=1e-12, info="(key %r, donor temperature %d)" % (key, k))
+            else:
+                self.ctx.close(g, tab, "install:adf15:rate", rtol=1e-12, info="(key %r)" % (key,))
+            self._store(key, relf, {k: np.array(got[k], dtype=np.float64) for k in got if k in ("ne", "te", "td", "rate")})
+            wkey = ("wavelength", sym, q, low)
+            with self.ctx.cut("read-after-install"):
+                w = self._read(wkey)["wavelength"]
+            self.ctx.close(w, (b["wl"] / 10.0) / 10.0, "install:adf15:wavelength", rtol=1e-12, info="(key %r)" % (wkey,))
+            self._store(wkey, "wavelength/%s/%d.json" % (sym, q), {"wavelength": np.float64(w)})
+        self.ctx.label("install15", "w:install15:" + "+".join(sorted({c for c, _, _ in expected})))
+
+    OPS["install15"] = lambda: ADF.adf15_cases().filter(lambda c: sum(b["nd"] * b["nt"] for b in c["blocks"]) <= 600)
 
     # ---- rejected updates: must raise and change nothing
     def pre_reject(self):
